@@ -200,6 +200,9 @@ func ReplayShuffle(v *explore.Violation) (bool, string) {
 // RunC14 explores the play grid with the dealing oracle, then enumerates the shuffle seam.
 func RunC14(rep *explore.Report, tier string) {
 	rep.Set("rule", "every reachable state of the play grid (decks of distinct tokens in factory, reversed, rotated and layout orders): visible cards == consumed deck prefix in dealing order, street sizes, prefix monotonicity on every transition; ShuffleCards through the rand seam: all n! answer sequences for n<=7 (also through Start()), all sequences with <=2 (quick, 52 cards: <=1) non-default answers for the 36- and 52-card decks; distinct_nontrivial = distinct shuffle outcomes + states with at least one card dealt")
+	if RunScenes(rep, tier, Visitors["C14"], GridOpts{Property: "C14"}) {
+		return
+	}
 	grid := PlayGrid(tier)
 	RunGrid(rep, grid, Visitors["C14"], GridOpts{Property: "C14", MaxState: 3000000})
 	// the same oracle on genuinely uninterrupted objects (no state cloning): keeps aliasing between the deck and dealt cards
